@@ -21,6 +21,16 @@
 //!   canned <hexfn> <status> <body> <arg>-> result of run_client on a canned response ## ok|fail status-rule
 //!   rawreq <hexfn> <METHOD> <query|none> <body> -> <status> <body>                ## ok|fail server-response
 //!   stream text|bytes <chunk,chunk,..|none>  -> items seen by the caller          ## ok|fail text-stream
+//!   ncall <noargsfn>                     -> ok <string> | err ..                   ## ok|fail pipeline
+//!   path <fn> <prefix|default> <endpoint|none> <fn name>
+//!                                       -> <ServerFn::PATH without its hash suffix> registered|unregistered
+//!                                          ## ok|fail path (PATH = the documented derivation incl. the xxh64 hash of crate directory
+//!                                             and module path — which depends on where the crate is built, hence not printed —
+//!                                             and the registry answers under it)
+//!   form <fn> <referer|none> <arg | tcall arguments>    the non-JS `<form>` fallback: `Accept: text/html`, `Referer`
+//!                                       -> <status> <Location (up to `__err=` for non-text error types)> <decode_err(__err)|none> <__path|none>
+//!                                          ## ok|fail form-fallback (302; an Err comes back in the URL with the function's path,
+//!                                             an Ok strips stale error info from the referer)
 //!   streamout text <item,item,..|none>   item = o<text> | e<Variant>:<msg>    a function with output = StreamingText
 //!   streamout bytes <item,item,..|none>  item = o<bytes> | x<raw error bytes>  a function with output = Streaming
 //!                                       -> items seen by the remote caller (every item the code relays)
@@ -447,6 +457,7 @@ struct Transport {
 struct RawRes {
     status: u16,
     location: Option<String>,
+    #[allow(dead_code)]
     body: Vec<u8>,
 }
 
@@ -1223,6 +1234,14 @@ fn hex_remote(f: &str, data: Vec<u8>) -> Option<Result<Raw, ServerFnError>> {
     })
 }
 
+/// what the remote caller must see: the direct call, except where a middleware is documented to answer itself
+fn hex_expected(f: &str, data: Vec<u8>) -> Option<Result<Raw, ServerFnError>> {
+    if f == "hx_mw_block" && data.first() == Some(&0xff) {
+        return Some(Err(ServerFnError::MiddlewareError("blocked|by middleware".into())));
+    }
+    hex_direct(f, data)
+}
+
 fn hex_direct(f: &str, data: Vec<u8>) -> Option<Result<Raw, ServerFnError>> {
     Some(match f {
         "hx_post" => block_on(hx_post(data)),
@@ -1519,6 +1538,67 @@ fn op_strip(s: String) -> String {
     format!("{} ## {}", hex(out.as_bytes()), if good { "ok" } else { "fail strip" })
 }
 
+#[derive(Clone, Copy, PartialEq)]
+enum ErrTy {
+    Sfe,
+    App,
+    Bin,
+}
+
+/// what the browser is redirected to by the `<form>` fallback, and what the page behind it reads
+fn form_observe(path: &str, ety: ErrTy, referer: &Option<String>, raw: RawRes, direct: &str) -> String {
+    let loc = raw.location.clone();
+    let parsed = loc.as_deref().and_then(|l| url::Url::parse(l).ok());
+    let errv = parsed.as_ref().and_then(|u| last_pair(u, "__err"));
+    let pathv = parsed.as_ref().and_then(|u| last_pair(u, "__path"));
+    let Some(decoded) = guard(|| {
+        errv.as_deref().map(|v| match ety {
+            ErrTy::Sfe => show_err(&ServerFnUrlError::<ServerFnError>::decode_err(v)),
+            ErrTy::App => show_app_res(&Err(ServerFnUrlError::<AppErr>::decode_err(v)))[4..].to_string(),
+            ErrTy::Bin => show_bin_res(&Err(ServerFnUrlError::<BinErr>::decode_err(v)))[4..].to_string(),
+        })
+    }) else {
+        return "panic ## fail panic".into();
+    };
+    let shown_loc = match (&loc, ety) {
+        (None, _) => "none".to_string(),
+        (Some(l), ErrTy::Sfe) => hex(l.as_bytes()),
+        (Some(l), _) => match l.rfind("__err=") {
+            Some(i) => hex(l[..i + 6].as_bytes()),
+            None => hex(l.as_bytes()),
+        },
+    };
+    let good = raw.status == 302
+        && match direct.strip_prefix("err ") {
+            Some(x) => decoded.as_deref() == Some(x) && pathv.as_deref() == Some(path),
+            None => {
+                errv.is_none()
+                    && pathv.is_none()
+                    && match referer {
+                        None => loc.as_deref() == Some("/"),
+                        Some(r) => match (url::Url::parse(r), &parsed) {
+                            (Ok(a), Some(b)) => {
+                                other_pairs(&a)
+                                    == b.query_pairs().map(|(k, v)| (k.into_owned(), v.into_owned())).collect::<Vec<_>>()
+                                    && a[..url::Position::AfterPath] == b[..url::Position::AfterPath]
+                                    && a.fragment() == b.fragment()
+                            }
+                            (Err(_), _) => loc.as_deref() == Some(r.as_str()),
+                            _ => false,
+                        },
+                    }
+            }
+        };
+    format!(
+        "{} {} {} {} ## {}",
+        raw.status,
+        shown_loc,
+        decoded.unwrap_or("none".into()),
+        pathv.map(|p| hex(p.as_bytes())).unwrap_or("none".into()),
+        if good { "ok" } else { "fail form-fallback" }
+    )
+}
+
 fn op(line: &str) -> String {
     let w: Vec<&str> = line.split_whitespace().collect();
     match w.as_slice() {
@@ -1568,7 +1648,7 @@ fn op(line: &str) -> String {
         },
         ["call", f, ah] => {
             let Some(a) = unhex(ah) else { return "bad-op".into() };
-            let Some(direct) = hex_direct(f, a.clone()) else { return "bad-op".into() };
+            let Some(direct) = hex_expected(f, a.clone()) else { return "bad-op".into() };
             match guard(|| hex_remote(f, a)) {
                 Some(Some(remote)) => {
                     let v = if remote == direct { "ok" } else { "fail pipeline" };
@@ -1692,6 +1772,103 @@ fn op(line: &str) -> String {
                 Some(None) => "bad-op".into(),
                 None => "done ## fail panic".into(),
             }
+        }
+        ["ncall", f] => {
+            let run = |f: &str| -> Option<(Result<String, ServerFnError>, Result<String, ServerFnError>)> {
+                Some(match f {
+                    "noargs_get" => (block_on(NoArgsGet {}.run_on_client()), block_on(noargs_get())),
+                    "noargs_post" => (block_on(NoArgsPost {}.run_on_client()), block_on(noargs_post())),
+                    "noargs_cbor" => (block_on(NoArgsCbor {}.run_on_client()), block_on(noargs_cbor())),
+                    _ => return None,
+                })
+            };
+            match guard(|| run(f)) {
+                Some(Some((remote, direct))) => {
+                    let show = |r: &Result<String, ServerFnError>| match r {
+                        Ok(s) => format!("ok {}", hex(s.as_bytes())),
+                        Err(e) => format!("err {}", show_err(e)),
+                    };
+                    format!("{} ## {}", show(&remote), if remote == direct { "ok" } else { "fail pipeline" })
+                }
+                Some(None) => "bad-op".into(),
+                None => "panic ## fail panic".into(),
+            }
+        }
+        ["path", f, ph, eh, nh] => {
+            let prefix = if *ph == "default" { Some("/api".to_string()) } else { unhex_str(ph) };
+            let (Some(prefix), Some(name)) = (prefix, unhex_str(nh)) else {
+                return "bad-op".into();
+            };
+            let hash = PATH_HASH;
+            let endpoint = if *eh == "none" { None } else { unhex_str(eh) };
+            if *eh != "none" && endpoint.is_none() {
+                return "bad-op".into();
+            }
+            let Some(real) = path_of(f) else { return "bad-op".into() };
+            // the derivation as documented for `#[server]`: prefix + "/" + endpoint, or prefix + "/" + name + hash
+            let expected = match &endpoint {
+                Some(e) => format!("{prefix}/{}", e.trim_start_matches('/')),
+                None => format!("{prefix}/{name}{hash}"),
+            };
+            let registered = registry().keys().any(|(p, _)| p == real);
+            let good = real == expected && registered;
+            let shown = match &endpoint {
+                None => real.strip_suffix(&hash.to_string()).unwrap_or(real),
+                Some(_) => real,
+            };
+            format!(
+                "{} {} ## {}",
+                hex(shown.as_bytes()),
+                if registered { "registered" } else { "unregistered" },
+                if good { "ok" } else { "fail path" }
+            )
+        }
+        ["form", f, refh, rest @ ..] if !rest.is_empty() => {
+            let referer = if *refh == "none" {
+                None
+            } else {
+                match unhex_str(refh) {
+                    Some(r) if http::HeaderValue::from_str(&r).is_ok() => Some(r),
+                    _ => return "bad-op".into(),
+                }
+            };
+            LAST_RES.with(|l| *l.borrow_mut() = None);
+            let r2 = referer.clone();
+            let (ety, direct) = if hex_direct(f, vec![]).is_some() && rest.len() == 1 {
+                let Some(a) = unhex(rest[0]) else { return "bad-op".into() };
+                let Some(direct) = hex_expected(f, a.clone()) else { return "bad-op".into() };
+                if guard(move || {
+                    TRANSPORT.with(|t| t.borrow_mut().form = Some(r2));
+                    hex_remote(f, a)
+                })
+                .is_none()
+                {
+                    return "panic ## fail panic".into();
+                }
+                (ErrTy::Sfe, show_hex_res(&direct))
+            } else if is_typed(f) && rest.len() >= 2 {
+                let Some((p, m)) = parse_tmode(f, rest) else { return "bad-op".into() };
+                match guard(move || {
+                    TRANSPORT.with(|t| t.borrow_mut().form = Some(r2));
+                    run_typed(f, &p, &m)
+                }) {
+                    Some(Some((_, direct))) => (
+                        match *f {
+                            "t_cbor_app" => ErrTy::App,
+                            "t_json_bin" => ErrTy::Bin,
+                            _ => ErrTy::Sfe,
+                        },
+                        direct,
+                    ),
+                    Some(None) => return "bad-op".into(),
+                    None => return "panic ## fail panic".into(),
+                }
+            } else {
+                return "bad-op".into();
+            };
+            let Some(raw) = LAST_RES.with(|l| l.borrow_mut().take()) else { return "no-response ## fail form-fallback".into() };
+            let Some(path) = path_of(f) else { return "bad-op".into() };
+            form_observe(path, ety, &referer, raw, &direct)
         }
         ["streamout", kind, it] => {
             let Some(items) = parse_out_items(kind, it) else { return "bad-op".into() };
@@ -2029,13 +2206,48 @@ fn gen_mut(r: &mut Rng) -> String {
 }
 
 fn is_url_fn(f: &str) -> bool {
-    f.contains("url")
+    f.contains("url") || ["t_default_path", "t_auto_name", "t_many", "t_defaults"].contains(&f)
+}
+
+/// every function with the `(p, mode, kind, msg)` behaviour and the `ServerFnError` error type
+fn all_typed() -> Vec<&'static str> {
+    TYPED.iter().chain(EXTRA_TYPED.iter()).chain(CROSS.iter()).copied().collect()
+}
+
+/// functions the `<form>` fallback ops use (registered under `/api/<name>`)
+fn form_typed() -> Vec<&'static str> {
+    TYPED.iter().copied().chain(["t_mw_id", "t_many", "t_defaults", "hand_echo", "t_auto_name"]).collect()
+}
+
+/// what the path derives from: the hash of crate directory and module path, as the macro computes it
+const PATH_HASH: u64 =
+    server_fn::xxhash_rust::const_xxh64::xxh64(concat!(env!("CARGO_MANIFEST_DIR"), ":", module_path!()).as_bytes(), 0);
+
+/// (function, `prefix` argument or "default", `endpoint` argument, function name)
+fn path_rows() -> Vec<(&'static str, &'static str, Option<String>, &'static str)> {
+    let mut v: Vec<(&'static str, &'static str, Option<String>, &'static str)> = vec![];
+    for f in TYPED.iter().chain(APP_FNS.iter()) {
+        v.push((f, "/api", Some(f.to_string()), f));
+    }
+    for f in ["t_auto_name", "t_mw_id", "t_many", "t_defaults", "hx_post", "hx_patch", "hx_put", "hx_mw_id", "hx_mw_block",
+        "noargs_get", "noargs_post", "noargs_cbor", "text_echo", "text_out", "bytes_out"]
+    {
+        v.push((f, "/api", Some(f.to_string()), f));
+    }
+    v.push(("t_default_path", "default", None, "t_default_path"));
+    v.push(("t_prefix", "/rpc/v1", Some("//t_prefix".to_string()), "t_prefix"));
+    v.push(("x_patchrkyv_in", "/x", None, "x_patchrkyv_in"));
+    v.push(("x_putserdelite_in", "/x", None, "x_putserdelite_in"));
+    for f in CROSS {
+        v.push((f, "/x", None, f));
+    }
+    v
 }
 
 fn gen_tcall(r: &mut Rng, f: &str) -> String {
     let p = gen_payload(r, is_url_fn(f));
     let pj = hex(serde_json::to_string(&p).unwrap().as_bytes());
-    if f == "t_cbor_app" {
+    if APP_FNS.contains(&f) {
         if r.chance(1, 2) {
             format!("{f} echo {pj}")
         } else {
@@ -2055,9 +2267,13 @@ fn gen(seed: u64, n: usize, path: &str) -> std::io::Result<()> {
     let mut r = Rng::new(seed);
     let mut f = std::io::BufWriter::new(std::fs::File::create(path)?);
     const HEXFNS: &[&str] = &["hx_post", "hx_patch", "hx_put"];
+    const HEXFNS_MW: &[&str] = &["hx_post", "hx_patch", "hx_put", "hx_mw_id", "hx_mw_block", "hx_mw_block"];
+    let typed_all = all_typed();
+    let typed_form = form_typed();
+    let rows = path_rows();
     for i in 0..n {
         let ty = if r.chance(1, 3) { "c" } else { "n" };
-        match r.below(22) {
+        match r.below(27) {
             0 | 1 | 2 => {
                 writeln!(f, "case {i}-errfmt")?;
                 writeln!(f, "ser {ty} {} {}", gen_variant(&mut r), hex(gen_text(&mut r, 8, ty == "c").as_bytes()))?
@@ -2095,10 +2311,15 @@ fn gen(seed: u64, n: usize, path: &str) -> std::io::Result<()> {
             }
             10 | 11 => {
                 writeln!(f, "case {i}-pipeline")?;
-                writeln!(f, "call {} {}", r.pick(HEXFNS), hex(&gen_hex_arg(&mut r)))?
+                let fname = *r.pick(HEXFNS_MW);
+                let mut a = gen_hex_arg(&mut r);
+                if fname == "hx_mw_block" && r.chance(1, 2) {
+                    a.insert(0, 0xff);
+                }
+                writeln!(f, "call {fname} {}", hex(&a))?
             }
             12 | 13 | 14 => {
-                let fname = if r.chance(1, 12) { "t_cbor_app" } else { *r.pick(TYPED) };
+                let fname = if r.chance(1, 12) { *r.pick(APP_FNS) } else { *r.pick(&typed_all) };
                 writeln!(f, "case {i}-typed")?;
                 writeln!(f, "tcall {}", gen_tcall(&mut r, fname))?
             }
@@ -2154,10 +2375,59 @@ fn gen(seed: u64, n: usize, path: &str) -> std::io::Result<()> {
             }
             18 => {
                 writeln!(f, "case {i}-corrupt")?;
-                let fname = if r.chance(1, 12) { "t_cbor_app" } else { *r.pick(TYPED) };
+                let fname = if r.chance(1, 12) { *r.pick(APP_FNS) } else { *r.pick(&typed_all) };
                 let side = *r.pick(&["req", "res"]);
                 let m = gen_mut(&mut r);
                 writeln!(f, "corrupt {fname} {side} {m} {}", gen_tcall(&mut r, fname).split_once(' ').unwrap().1)?
+            }
+            21 | 22 | 23 => {
+                // the non-JS `<form>` fallback: every error variant x every error encoding through the URL
+                writeln!(f, "case {i}-form")?;
+                let referer = match r.below(10) {
+                    0 => "none".to_string(),
+                    1 => hex(r.pick(&["/relative", "/", "", "not a url"]).as_bytes()),
+                    2 | 3 => hex(format!("http://h/p?{}", gen_query(&mut r)).as_bytes()),
+                    _ => hex(
+                        r.pick(&[
+                            "http://localhost/",
+                            "http://localhost:3000/page",
+                            "https://example.com/a/b?x=1",
+                            "https://example.com/a/b?x=1&y=%C3%A9+z",
+                            "http://h/p?",
+                            "http://h/p?x=1#frag",
+                            "http://h/p#frag",
+                            "http://h/p?__err=stale&__path=%2Fold",
+                            "http://h/p?q=a%26b&__err=U2VydmVyRXJyb3J8b2xk",
+                        ])
+                        .as_bytes(),
+                    ),
+                };
+                match r.below(6) {
+                    0 | 1 => writeln!(f, "form {} {referer} {}", r.pick(HEXFNS), hex(&gen_hex_arg(&mut r)))?,
+                    2 => {
+                        let fname = *r.pick(APP_FNS);
+                        writeln!(f, "form {fname} {referer} {}", gen_tcall(&mut r, fname).split_once(' ').unwrap().1)?
+                    }
+                    _ => {
+                        let fname = *r.pick(&typed_form);
+                        writeln!(f, "form {fname} {referer} {}", gen_tcall(&mut r, fname).split_once(' ').unwrap().1)?
+                    }
+                }
+            }
+            24 => {
+                writeln!(f, "case {i}-noargs")?;
+                writeln!(f, "ncall {}", r.pick(&["noargs_get", "noargs_post", "noargs_cbor"]))?
+            }
+            25 => {
+                writeln!(f, "case {i}-path")?;
+                let (fname, prefix, endpoint, name) = r.pick(&rows).clone();
+                writeln!(
+                    f,
+                    "path {fname} {} {} {}",
+                    if prefix == "default" { "default".to_string() } else { hex(prefix.as_bytes()) },
+                    endpoint.map(|e| hex(e.as_bytes())).unwrap_or("none".into()),
+                    hex(name.as_bytes())
+                )?
             }
             19 | 20 => {
                 // output streams whose item sequence contains errors at every position
